@@ -6,6 +6,10 @@ use crate::streams::{self, Stream};
 
 pub const ZLIB_HEADERS: [u8; 4] = [0x01, 0x5E, 0x9C, 0xDA];
 
+/// PNG wrappers may carry arbitrary bytes in place of the zlib header (the library stores them verbatim);
+/// switched off by the C06 monitor, whose statement only speaks about well-formed embeddings
+pub static ODD_PNG_HEADERS: std::sync::atomic::AtomicBool = std::sync::atomic::AtomicBool::new(true);
+
 pub fn crc32(data: &[u8]) -> u32 {
     crc32fast::hash(data)
 }
@@ -261,7 +265,12 @@ pub fn junk_hostile(r: &mut Rng, n: usize) -> Vec<u8> {
             }
             3 => {
                 // IDAT with bad length / CRC
-                let l = if r.chance(1, 4) { 0 } else { r.below(70) as u32 };
+                let l = match r.below(8) {
+                    0 | 1 => 0,
+                    2 => r.next() as u32,
+                    3 => 1000 + r.below(100_000) as u32,
+                    _ => r.below(70) as u32,
+                };
                 v.extend_from_slice(&l.to_be_bytes());
                 v.extend_from_slice(b"IDAT");
                 let k = r.usize_below(80);
@@ -375,14 +384,20 @@ pub fn wrap_stream(r: &mut Rng, s: &Stream, w: u8, hostile_fields: bool) -> (Vec
         }
         _ => {
             let flg = *r.pick(&ZLIB_HEADERS);
-            let z = zlib_wrap(&s.bytes, &s.plain, flg);
+            let mut z = zlib_wrap(&s.bytes, &s.plain, flg);
+            // the scanner stores the two header bytes verbatim and never interprets them: any value must do
+            let odd_header = r.chance(1, 6) && ODD_PNG_HEADERS.load(std::sync::atomic::Ordering::Relaxed);
+            if odd_header {
+                z[0] = *r.pick(&[0x78u8, 0x79, 0x00, 0x08, 0xff]);
+                z[1] = r.byte();
+            }
             let n_chunks = *r.pick(&[1usize, 1, 2, 3, 8]);
             let cuts = random_cuts(r, z.len(), n_chunks, false);
             let envelope = r.chance(3, 4);
             let v = png_wrap(r, &z, &cuts, envelope, &[]);
             let off = if envelope { 8 + 25 } else { 0 };
             let span = z.len() + 12 * (cuts.len() + 1);
-            (v, off, span, format!("png idat_chunks={} envelope={} hdr=78{:02X}", cuts.len() + 1, envelope, flg))
+            (v, off, span, format!("png idat_chunks={} envelope={} hdr={:02X}{:02X}", cuts.len() + 1, envelope, z[0], z[1]))
         }
     }
 }
